@@ -66,7 +66,7 @@ func (r *Run) ConcreteOnly(path string) int {
 		return 2
 	}
 	cfg := &interp.Config{Prog: r.prog, Harness: fn, MaxSteps: 50_000_000, MaxDecisions: 100000, TimeoutMS: 10000,
-		InitAllow: initAllow, Sizes: types.SizesFor("gc", "amd64"), Trace: r.Trace, Tier: r.tierNum()}
+		InitAllow: initAllow, Sizes: types.SizesFor("gc", "amd64"), Trace: r.Trace, Tier: r.tierNum(), Seed: int(r.Seed)}
 	hr := &HarnessResult{Cfg: cfg}
 	res := r.concreteRun(hr, rf.Values)
 	if res == nil {
